@@ -204,7 +204,11 @@ class Parser:
     def cond(self):
         c = self.binary(1)
         if self.peek() == "?":
-            raise Unsupported("conditional expression")
+            self.eat()
+            a = self.expr()
+            self.eat(":")
+            b = self.cond()
+            return ("ternary", c, a, b)
         return c
 
     def binary(self, minp):
@@ -373,10 +377,54 @@ class Parser:
         if tok == "for":
             self.eat()
             self.eat("(")
-            if not (self.peek() == ";" and self.peek(1) == ";" and self.peek(2) == ")"):
-                raise Unsupported("for loop other than for (;;)")
-            self.eat(); self.eat(); self.eat()
-            return ("loop", self.stmt())
+            if self.peek() == ";" and self.peek(1) == ";" and self.peek(2) == ")":
+                self.eat(); self.eat(); self.eat()
+                return ("loop", self.stmt())
+            init = None if self.peek() == ";" else self.expr()
+            self.eat(";")
+            cond = ("num", 1) if self.peek() == ";" else self.expr()
+            self.eat(";")
+            step = None if self.peek() == ")" else self.expr()
+            self.eat(")")
+            body = self.stmt()
+            if contains_kind(body, "continue"):
+                raise Unsupported("continue inside a for loop with a step expression")
+            out = []
+            if init is not None:
+                out.append(("expr", init))
+            out.append(("while", cond, ("block", [body] + ([("expr", step)] if step is not None else []))))
+            return ("block", out)
+        if tok == "switch":
+            self.eat()
+            self.eat("(")
+            e = self.expr()
+            self.eat(")")
+            self.eat("{")
+            cases = []          # (list of label exprs or "default", [stmts])
+            while self.peek() != "}":
+                labels = []
+                while self.peek() in ("case", "default"):
+                    if self.eat() == "case":
+                        labels.append(self.cond())
+                    else:
+                        labels.append("default")
+                    self.eat(":")
+                if not labels:
+                    raise Unsupported("statement before the first case label")
+                body = []
+                while self.peek() not in ("case", "default", "}"):
+                    body.append(self.stmt())
+                cases.append((labels, body))
+            self.eat("}")
+            return ("switch", e, cases)
+        if tok == "goto":
+            self.eat()
+            l = self.eat()
+            self.eat(";")
+            return ("goto", l)
+        if re.match(r"^[A-Za-z_]\w*$", tok or "") and self.peek(1) == ":" and tok not in ("case", "default"):
+            self.eat(); self.eat()
+            return ("label", tok)
         if tok == "while":
             self.eat()
             self.eat("(")
@@ -406,8 +454,6 @@ class Parser:
         if tok == "continue":
             self.eat(); self.eat(";")
             return ("continue",)
-        if tok in ("switch", "goto", "case"):
-            raise Unsupported(tok)
         if self.looks_like_decl():
             return self.decl()
         e = self.expr()
@@ -419,11 +465,58 @@ def lstr(s):
     return '"' + s + '"'
 
 
+def strip_conditionals(text, defines):
+    """file-level #ifdef/#ifndef/#if defined(X)/#else/#endif resolved for the given set of defined names; a condition of any
+    other form keeps its first branch and drops the #else branch (recorded by the caller through `unknown`)"""
+    out, stack, unknown = [], [], []
+    for line in text.split("\n"):
+        m = re.match(r"^\s*#\s*(ifdef|ifndef|if|elif|else|endif)\b(.*)$", line)
+        if not m:
+            out.append(line if all(stack) else "")
+            continue
+        d, rest = m.group(1), m.group(2).strip()
+        if d in ("ifdef", "ifndef"):
+            v = (rest.split()[0] in defines)
+            stack.append(v if d == "ifdef" else not v)
+        elif d == "if":
+            mm = re.match(r"^!?\s*defined\s*\(?\s*(\w+)\s*\)?\s*$", rest)
+            if mm:
+                v = mm.group(1) in defines
+                stack.append((not v) if rest.startswith("!") else v)
+            else:
+                unknown.append(rest)
+                stack.append(True)
+        elif d == "elif":
+            unknown.append(rest)
+            if stack:
+                stack[-1] = False
+        elif d == "else":
+            if stack:
+                stack[-1] = not stack[-1]
+        elif d == "endif":
+            if stack:
+                stack.pop()
+        out.append("")
+    return "\n".join(out), unknown
+
+
+# callees deliberately kept opaque (list traversals …): their result comes from the oracle, event `ext name`
+OPAQUE = {"rcu_defer_num_callbacks", "mutex_lock", "mutex_unlock", "mutex_lock_defer", "get_call_rcu_data", "membarrier"}
+# public names that, under _LGPL_SOURCE (how src/*.c is compiled), are macros for the static-inline implementation
+ALIASES = {"cds_wfcq_enqueue": "_cds_wfcq_enqueue", "cds_wfcq_node_init": "_cds_wfcq_node_init",
+           "cds_wfcq_empty": "_cds_wfcq_empty", "rcu_read_lock": "_rcu_read_lock", "rcu_read_unlock": "_rcu_read_unlock"}
+
+
 class Translator:
-    def __init__(self):
+    def __init__(self, defines=(), own_files=(), prefix="", search=None):
         self.texts = {}
-        for f in SEARCH:
-            self.texts[f] = strip_comments(open(os.path.join(REPO, f)).read())
+        self.defines, self.own_files, self.prefix = set(defines), set(own_files), prefix
+        self.search = list(search or SEARCH)
+        for f in self.search:
+            t = strip_comments(open(os.path.join(REPO, f)).read())
+            if f in self.own_files:
+                t, _ = strip_conditionals(t, self.defines)
+            self.texts[f] = t
         self.defs = {}          # name -> (params, lean stmt text)
         self.order = []
         self.consts = {}        # NAME -> value (pass 2) / None
@@ -433,12 +526,14 @@ class Translator:
         self.ltypes = {}
         self.api = api_defaults()
         self.memlocals = set()
+        self.goto_labels = set()
+        self.loop_depth = 0
         self.locals = set()
         self.tmpn = 0
         self.inprogress = []
 
     def lookup(self, name, hint=None):
-        files = ([hint] if hint else []) + [f for f in SEARCH if f != hint]
+        files = ([hint] if hint else []) + [f for f in self.search if f != hint]
         for f in files:
             r = find_function(self.texts[f], name)
             if r:
@@ -459,27 +554,48 @@ class Translator:
         params = []
         ptxt = ptxt.strip()
         if ptxt and ptxt != "void":
-            for p in ptxt.split(","):
-                ids = re.findall(r"[A-Za-z_]\w*", p)
+            pieces, depth, cur = [], 0, ""
+            for ch in ptxt:
+                depth += {"(": 1, ")": -1}.get(ch, 0)
+                if ch == "," and depth == 0:
+                    pieces.append(cur)
+                    cur = ""
+                else:
+                    cur += ch
+            pieces.append(cur)
+            for p in pieces:
+                fp = re.search(r"\(\s*\*\s*([A-Za-z_]\w*)\s*\)", p)       # function-pointer parameter `ret (*name)(args)`
+                ids = [fp.group(1)] if fp else re.findall(r"[A-Za-z_]\w*", re.sub(r"__attribute__\s*\(\(.*?\)\)", "", p))
                 params.append(ids[-1])
                 self.ltypes[ids[-1]] = " ".join(x for x in ids[:-1] if x not in ("const", "volatile"))
         saved = (self.locals, self.tmpn, self.memlocals)
         self.locals, self.tmpn, self.memlocals = set(params), 0, set()
         self.inprogress.append(name)
+        saved_g = (self.goto_labels, self.loop_depth)
+        self.goto_labels, self.loop_depth = set(), 0
         try:
             ast = Parser(tokenize(body), self).block()
             self.memlocals = set(address_taken(ast)) & self.locals
             if self.memlocals & set(params):
                 raise Unsupported("address of a parameter")
             stmts = self.stmt(ast)
+            for l in sorted(self.goto_labels):
+                if not contains_label(ast, l):
+                    raise Unsupported("goto to a label outside the function")
+                self.locals.add("_goto_" + l)
+            stmts = [".assign %s (.lit 0)" % lstr("_goto_" + l) for l in sorted(self.goto_labels)] + stmts
         except Unsupported as e:
             raise Unsupported("%s (%s): %s" % (name, f, e))
         finally:
             self.inprogress.pop()
+            self.goto_labels, self.loop_depth = saved_g
             self.locals, self.tmpn, self.memlocals = saved
         self.defs[name] = (params, stmts, f)
         self.order.append(name)
         return True
+
+    def qual(self, name):
+        return (self.prefix + name) if self.defs[name][2] in self.own_files else name
 
     def tmp(self):
         self.tmpn += 1
@@ -523,6 +639,11 @@ class Translator:
                 return [], ".var %s" % lstr(n)
             if n == "NULL":
                 return [], ".null"
+            if n == "errno":
+                # the error code of the preceding external call: a value of the oracle (event `ext "errno"`)
+                t = self.tmp()
+                self.locals.add(t)
+                return [".prim (some %s) (.ext \"errno\") []" % lstr(t)], ".var %s" % lstr(t)
             if n in ("true", "false"):
                 return [], ".lit %d" % (1 if n == "true" else 0)
             if re.match(r"^[A-Z][A-Z0-9_]*$", n):
@@ -538,6 +659,14 @@ class Translator:
                 return [], ".var %s" % lstr(e[1][1])
             p, a = self.addr(e)
             return p, ".pload (%s)" % a
+        if k == "ternary":
+            pc, c = self.rv(e[1])
+            pa, a = self.rv(e[2])
+            pb, b = self.rv(e[3])
+            t = self.tmp()
+            self.locals.add(t)
+            return pc + [".ifte (%s) (%s) (%s)" % (c, self.blk(pa + [".assign %s (%s)" % (lstr(t), a)]),
+                                                   self.blk(pb + [".assign %s (%s)" % (lstr(t), b)]))], ".var %s" % lstr(t)
         if k == "container_of":
             self.zero_offsets.add((e[2], e[3]))
             return self.rv(e[1])
@@ -606,7 +735,7 @@ class Translator:
         return pre, "[" + ", ".join(out) + "]"
 
     def call(self, e, want_value):
-        name, args = e[1], e[2]
+        name, args = ALIASES.get(e[1], e[1]), e[2]
         if name in IDENTITY_CALLS:
             return self.rv(args[0])
         if name in IGNORED_CALLS:
@@ -674,7 +803,7 @@ class Translator:
             return pre + [".prim none .%s [%s]" % (prim, ", ".join(vals))], None
         args = [a for a in args if not (a[0] == "id" and a[1] in MO_NAMES)]
         saved = (self.locals, self.tmpn)
-        if self.function(name):
+        if name not in OPAQUE and self.function(name):
             self.locals, self.tmpn = saved
             params = self.defs[name][0]
             if len(params) != len(args):
@@ -684,8 +813,8 @@ class Translator:
             if want_value:
                 t = self.tmp()
                 self.locals.add(t)
-                return pre + [".call (some %s) %s %s %s" % (lstr(t), plist, a, lname(name))], ".var %s" % lstr(t)
-            return pre + [".call none %s %s %s" % (plist, a, lname(name))], None
+                return pre + [".call (some %s) %s %s %s" % (lstr(t), plist, a, lname(self.qual(name)))], ".var %s" % lstr(t)
+            return pre + [".call none %s %s %s" % (plist, a, lname(self.qual(name)))], None
         self.locals, self.tmpn = saved
         # external function: arguments evaluated, result from the oracle
         pre, a = self.args(args)
@@ -702,16 +831,89 @@ class Translator:
             return stmts[0]
         return "block [" + ", ".join("(%s)" % s if not s.startswith("(") else s for s in stmts) + "]"
 
+    def stmt_list(self, stmts):
+        """a block: forward gotos become flags; what follows a statement that may have jumped is guarded by the flag
+        until the label is reached (inside a loop the guard leaves the loop)"""
+        out = []
+        i = 0
+        while i < len(stmts):
+            x = stmts[i]
+            out += self.stmt(x)
+            g = gotos_in(x)
+            if g:
+                # labels of g that are in the rest of this block end the guard for that label
+                rest = stmts[i + 1:]
+                pos = [j for j, y in enumerate(rest) if y[0] == "label" and y[1] in g]
+                cut = min(pos) if pos else len(rest)
+                guarded = rest[:cut]
+                after = rest[cut:]
+                flags = sorted(g)
+                cond = ".var %s" % lstr("_goto_" + flags[0])
+                for f in flags[1:]:
+                    cond = ".bin .lor (%s) (.var %s)" % (cond, lstr("_goto_" + f))
+                if any(contains_kind(y, "label") for y in guarded):
+                    raise Unsupported("goto across another label")
+                inner = self.stmt_list(list(guarded)) if guarded else []
+                esc = ".brk" if self.loop_depth > 0 else ".skip"
+                if inner or esc != ".skip":
+                    out.append(".ifte (%s) (%s) (%s)" % (cond, esc, self.blk(inner)))
+                # remaining gotos of g whose label is further away stay pending for the enclosing block
+                out += self.stmt_list(list(after))
+                return out
+            i += 1
+        return out
+
     def stmt(self, s):
         """returns a list of Lean Stmt texts"""
         k = s[0]
         if k == "block":
-            out = []
-            for x in s[1]:
-                out += self.stmt(x)
-            return out
+            return self.stmt_list(list(s[1]))
         if k == "declonly":
             return []
+        if k == "label":
+            return []
+        if k == "goto":
+            self.goto_labels.add(s[1])
+            return [".assign %s (.lit 1)" % lstr("_goto_" + s[1])] + ([".brk"] if self.loop_depth > 0 else [])
+        if k == "switch":
+            p, v = self.rv(s[1])
+            t = self.tmp()
+            self.locals.add(t)
+            pre = p + [".assign %s (%s)" % (lstr(t), v)]
+            chain = None
+            default_body = []
+            arms = []
+            for labels, body in s[2]:
+                if not body:
+                    raise Unsupported("empty case falling through")
+                last = body[-1]
+                term_ok = last[0] in ("break", "goto", "return", "continue") or \
+                    (last[0] == "expr" and last[1][0] == "call" and last[1][1] in NORETURN)
+                if not term_ok:
+                    raise Unsupported("case falling through")
+                inner = body[:-1] if last[0] == "break" else body
+                if any(contains_kind(b, "break") for b in inner):
+                    raise Unsupported("break nested inside a case body")
+                stm = self.blk(self.stmt_list(list(inner)))
+                if "default" in labels:
+                    default_body = stm
+                    if len(labels) > 1:
+                        raise Unsupported("default sharing a case label")
+                else:
+                    conds = []
+                    for l in labels:
+                        pl, lv = self.rv(l)
+                        if pl:
+                            raise Unsupported("case label with effects")
+                        conds.append(".bin .eq (.var %s) (%s)" % (lstr(t), lv))
+                    c = conds[0]
+                    for c2 in conds[1:]:
+                        c = ".bin .lor (%s) (%s)" % (c, c2)
+                    arms.append((c, stm))
+            chain = default_body if default_body else ".skip"
+            for c, stm in reversed(arms):
+                chain = ".ifte (%s) (%s) (%s)" % (c, stm, chain)
+            return pre + [chain]
         if k == "expr":
             e = s[1]
             if e[0] == "call":
@@ -726,13 +928,25 @@ class Translator:
             p, c = self.rv(s[1])
             return p + [".ifte (%s) (%s) (%s)" % (c, self.blk(self.stmt(s[2])), self.blk(self.stmt(s[3])))]
         if k == "loop":
-            return [".loop (%s)" % self.blk(self.stmt(s[1]))]
+            self.loop_depth += 1
+            try:
+                return [".loop (%s)" % self.blk(self.stmt(s[1]))]
+            finally:
+                self.loop_depth -= 1
         if k == "while":
             p, c = self.rv(s[1])
-            body = self.stmt(s[2])
+            self.loop_depth += 1
+            try:
+                body = self.stmt(s[2])
+            finally:
+                self.loop_depth -= 1
             return [".loop (%s)" % self.blk(p + [".ifte (%s) (%s) (.brk)" % (c, self.blk(body))])]
         if k == "dowhile":
-            body = self.stmt(s[1])
+            self.loop_depth += 1
+            try:
+                body = self.stmt(s[1])
+            finally:
+                self.loop_depth -= 1
             if any(".cont" in b for b in body):
                 raise Unsupported("continue inside do-while")
             p, c = self.rv(s[2])
@@ -749,6 +963,39 @@ class Translator:
         raise Unsupported("statement %r" % (k,))
 
 
+def contains_kind(t, kind, stop=("loop", "while", "dowhile")):
+    """does statement tree t contain a statement of this kind (not looking into nested loops for break/continue)"""
+    if isinstance(t, tuple) and t and t[0] == kind:
+        return True
+    if isinstance(t, tuple) and t and kind in ("break", "continue") and t[0] in stop:
+        return False
+    if isinstance(t, (tuple, list)):
+        return any(contains_kind(x, kind, stop) for x in t if isinstance(x, (tuple, list)))
+    return False
+
+
+def contains_label(t, l):
+    if isinstance(t, tuple) and len(t) == 2 and t[0] == "label" and t[1] == l:
+        return True
+    if isinstance(t, (tuple, list)):
+        return any(contains_label(x, l) for x in t if isinstance(x, (tuple, list)))
+    return False
+
+
+def gotos_in(t):
+    out = set()
+    if isinstance(t, tuple) and t and t[0] == "goto":
+        out.add(t[1])
+    if isinstance(t, (tuple, list)):
+        for x in t:
+            if isinstance(x, (tuple, list)):
+                out |= gotos_in(x)
+    return out
+
+
+NORETURN = {"urcu_die", "abort", "pthread_exit", "exit", "_exit"}
+
+
 def address_taken(t):
     out = []
     if isinstance(t, (tuple, list)):
@@ -763,32 +1010,63 @@ def lname(n):
     return "«%s»" % n
 
 
+# translation units with file-level configuration: (prefix, defines, own files, extra search files, roots)
+UNITS = [
+    ("", (), (), [], ROOTS),
+    ("", (), (), ["src/urcu-wait.h", "src/urcu-call-rcu-impl.h", "src/workqueue.c", "src/urcu-defer-impl.h"],
+     [("urcu_wait_add", "src/urcu-wait.h"), ("urcu_move_waiters", "src/urcu-wait.h"), ("urcu_wait_set_state", "src/urcu-wait.h"),
+      ("urcu_wait_node_init", "src/urcu-wait.h"), ("urcu_adaptative_wake_up", "src/urcu-wait.h"),
+      ("urcu_adaptative_busy_wait", "src/urcu-wait.h"),
+      ("call_rcu_wait", "src/urcu-call-rcu-impl.h"), ("call_rcu_wake_up", "src/urcu-call-rcu-impl.h"),
+      ("call_rcu_completion_wait", "src/urcu-call-rcu-impl.h"), ("call_rcu_completion_wake_up", "src/urcu-call-rcu-impl.h"),
+      ("wake_call_rcu_thread", "src/urcu-call-rcu-impl.h"), ("_call_rcu", "src/urcu-call-rcu-impl.h"),
+      ("futex_wait", "src/workqueue.c"), ("futex_wake_up", "src/workqueue.c"), ("wake_worker_thread", "src/workqueue.c"),
+      ("wake_up_defer", "src/urcu-defer-impl.h"), ("wait_defer", "src/urcu-defer-impl.h")]),
+    ("memb.", ("RCU_MEMBARRIER",), ("src/urcu.c",), ["src/urcu.c"], [("smp_mb_master", "src/urcu.c"), ("wait_gp", "src/urcu.c")]),
+    ("mb.", ("RCU_MB",), ("src/urcu.c",), ["src/urcu.c"], [("smp_mb_master", "src/urcu.c"), ("wait_gp", "src/urcu.c")]),
+    ("qsbr.", (), ("src/urcu-qsbr.c",), ["src/urcu-qsbr.c"], [("wait_gp", "src/urcu-qsbr.c")]),
+]
+
+
 def main():
     out_lean, out_c = sys.argv[1], sys.argv[2]
     consts_txt = sys.argv[3] if len(sys.argv) > 3 else None
-    tr = Translator()
+    consts = {}
     if consts_txt:
         for line in open(consts_txt):
             ws = line.split()
             if len(ws) == 2:
-                tr.consts[ws[0]] = ws[1]
+                consts[ws[0]] = ws[1]
     errors = []
-    for name, f in ROOTS:
-        try:
-            if not tr.function(name, f):
-                errors.append("%s: definition not found in %s" % (name, f))
-        except Unsupported as e:
-            errors.append(str(e))
+    trs = []
+    seen_defs = {}
+    for prefix, defines, own, extra, roots in UNITS:
+        tr = Translator(defines, own, prefix, SEARCH + [f for f in extra if f not in SEARCH])
+        tr.consts = dict(consts)
+        for name, f in roots:
+            try:
+                if not tr.function(name, f):
+                    errors.append("%s: definition not found in %s" % (name, f))
+            except Unsupported as e:
+                errors.append(str(e))
+        trs.append(tr)
     if not consts_txt:
         c = ["#define _LGPL_SOURCE 1", "#include <stdio.h>", "#include <stddef.h>", "#include <poll.h>", "#include <limits.h>",
-             "#include <stdlib.h>", "#include <urcu/futex.h>", "#include <urcu/ref.h>", "#include <urcu/urcu-memb.h>",
-             "#include <urcu/urcu-bp.h>", "#include <urcu/urcu-qsbr.h>", "#include <urcu/wfstack.h>", "#include <urcu/lfstack.h>",
-             "#include <urcu/wfcqueue.h>", "#include <urcu/rculfqueue.h>", "int main(void) {"]
-        for n in sorted(tr.need_consts):
+             "#include <stdlib.h>", "#include <errno.h>", "#include <linux/membarrier.h>", "#include <urcu/futex.h>", "#include <urcu/ref.h>",
+             "#include <urcu/urcu-memb.h>", "#include <urcu/urcu-bp.h>", "#include <urcu/urcu-qsbr.h>", "#include <urcu/wfstack.h>",
+             "#include <urcu/lfstack.h>", "#include <urcu/wfcqueue.h>", "#include <urcu/rculfqueue.h>", "#include <urcu/call-rcu.h>",
+             "#include <urcu/workqueue.h>" if os.path.exists(os.path.join(REPO, "include/urcu/workqueue.h")) else "",
+             '#include "urcu-wait.h"', '#include "workqueue.h"', "int main(void) {"]
+        need, cex, zero = set(), {}, set()
+        for tr in trs:
+            need |= tr.need_consts
+            cex.update(tr.cexprs)
+            zero |= tr.zero_offsets
+        for n in sorted(need):
             c.append('printf("%s %%ld\\n", (long)(%s));' % (n, n))
-        for n, txt in sorted(tr.cexprs.items()):
+        for n, txt in sorted(cex.items()):
             c.append('printf("%s %%ld\\n", (long)(%s));' % (n, txt))
-        for ty, mem in sorted(tr.zero_offsets):
+        for ty, mem in sorted(zero):
             c.append("_Static_assert(offsetof(%s, %s) == 0, \"caa_container_of(%s,%s) is not the identity\");" % (ty, mem, ty, mem))
         c.append("return 0; }")
         open(out_c, "w").write("\n".join(c) + "\n")
@@ -796,16 +1074,26 @@ def main():
             sys.stderr.write("\n".join("gen_src: " + e for e in errors) + "\n")
         return 0
     L = ["/- GENERATED from the C text of /repo by harness/gen/gen_src.py on every check run; do not edit. -/",
-         "import UrcuVerif.Src.IR", "set_option maxRecDepth 4096", "namespace UrcuVerif.Gen.Src", "open UrcuVerif.Src", ""]
-    for name in tr.order:
-        params, stmts, f = tr.defs[name]
-        L.append("/-- `%s` (%s) -/" % (name, f))
-        L.append("def %s : Stmt :=\n  %s" % (lname(name), tr.blk(stmts)))
-        L.append("def %s : List String := [%s]" % (lname(name + ".params"), ", ".join(lstr(p) for p in params)))
-        L.append("")
+         "import UrcuVerif.Src.IR", "set_option maxRecDepth 8192", "namespace UrcuVerif.Gen.Src", "open UrcuVerif.Src", ""]
+    order = []
+    for tr in trs:
+        for name in tr.order:
+            q = tr.qual(name)
+            params, stmts, f = tr.defs[name]
+            text = tr.blk(stmts)
+            if q in seen_defs:
+                if seen_defs[q] != text:
+                    errors.append("%s translated differently in two units" % q)
+                continue
+            seen_defs[q] = text
+            order.append(q)
+            L.append("/-- `%s` (%s%s) -/" % (name, f, (", with " + " ".join(sorted(tr.defines))) if tr.defines and f in tr.own_files else ""))
+            L.append("def %s : Stmt :=\n  %s" % (lname(q), text))
+            L.append("def %s : List String := [%s]" % (lname(q + ".params"), ", ".join(lstr(p) for p in params)))
+            L.append("")
     L.append("/-- functions the translator could not express in the IR subset (listed, never defaulted) -/")
     L.append("def untranslated : List String := [%s]" % ", ".join(lstr(e.replace('"', "'").replace("\\", "/")) for e in errors))
-    L.append("def translated : List String := [%s]" % ", ".join(lstr(n) for n in tr.order))
+    L.append("def translated : List String := [%s]" % ", ".join(lstr(n) for n in order))
     L.append("end UrcuVerif.Gen.Src")
     open(out_lean, "w").write("\n".join(L) + "\n")
     if errors:
